@@ -13,4 +13,8 @@ def isContainedBy (crosses inBox : Bool) (n : Nat) : Bool :=
   else if !inBox then false
   else enclosesPt n
 
+/-- `seg2lines` inside `Path.area`: an Arc of length `len` is replaced by `ceil(len / chord_length)` chords
+(`ceilQ` is the ceiling function of the scalar type) -/
+def numLines {S : Type} [Div S] (ceilQ : S → Int) (len chord : S) : Int := ceilQ (len / chord)
+
 end SvgVerif.Model.Enclose
